@@ -128,11 +128,20 @@ Streams == <<
 NStreams == Len(Streams)
 MainKinds == {"packfile", "pktline", "commit", "table"}
 
-PlanTab == [k \in 1..NStreams |-> [j \in 1..Len(Streams[k].segs) |-> BLen(Streams[k].segs[j][2])]]
-TotalTab == [k \in 1..NStreams |-> Total(PlanTab[k])]
-BytesTab == [k \in 1..NStreams |-> Join(Streams[k].segs)]
-WholeTab == [k \in 1..NStreams |-> WholeBuffer(PlanTab[k], Streams[k].probe)]
-StartTab == [k \in 1..NStreams |-> DecStart(PlanTab[k], Streams[k].probe)]
+\* (a function constructor stays a lambda in TLC and is re-evaluated at every application: the tables
+\*  are built as explicit tuples)
+RECURSIVE TabTo(_, _)
+TabTo(F(_), n) == IF n = 0 THEN <<>> ELSE Append(TabTo(F, n - 1), F(n))
+PlanOf(k) == TabTo(LAMBDA j : BLen(Streams[k].segs[j][2]), Len(Streams[k].segs))
+PlanTab == TabTo(PlanOf, NStreams)
+TotalOf(k) == Total(PlanTab[k])
+TotalTab == TabTo(TotalOf, NStreams)
+BytesOf(k) == Join(Streams[k].segs)
+BytesTab == TabTo(BytesOf, NStreams)
+WholeOf(k) == WholeBuffer(PlanTab[k], Streams[k].probe)
+WholeTab == TabTo(WholeOf, NStreams)
+StartOf(k) == DecStart(PlanTab[k], Streams[k].probe)
+StartTab == TabTo(StartOf, NStreams)
 
 (* ---------------- interesting cut points ---------------- *)
 Inside(k, S) == {c \in S : c >= 1 /\ c <= TotalTab[k] - 1}
@@ -142,16 +151,18 @@ CandSet(k) ==
       bounds == {off[i] : i \in 2..Len(plan)}
       mids == {off[i] + plan[i] \div 2 : i \in {j \in 1..Len(plan) : plan[j] >= 2}}
   IN Inside(k, UNION {{b - 1, b, b + 1} : b \in bounds} \cup mids)
-SortedSeq(S) == [i \in 1..Cardinality(S) |-> CHOOSE c \in S : Cardinality({x \in S : x < c}) = i - 1]
-CandTab == [k \in 1..NStreams |-> SortedSeq(CandSet(k))]
+SortedSeq(S) == TabTo(LAMBDA i : CHOOSE c \in S : Cardinality({x \in S : x < c}) = i - 1, Cardinality(S))
+CandOf(k) == SortedSeq(CandSet(k))
+CandTab == TabTo(CandOf, NStreams)
 KOf(k) == IF Streams[k].kind \in MainKinds THEN KMain ELSE KRest
 \* K points evenly spread over the candidates, rotated by Rot (all of them if there are at most K)
-ChosenTab == [k \in 1..NStreams |->
+ChosenOf(k) ==
   LET cs == CandTab[k]
       m == Len(cs)
       kk == KOf(k)
   IN IF m <= kk THEN cs
-     ELSE SortedSeq({cs[(((j * m) \div kk + Rot) % m) + 1] : j \in 0..(kk - 1)})]
+     ELSE SortedSeq({cs[(((j * m) \div kk + Rot) % m) + 1] : j \in 0..(kk - 1)})
+ChosenTab == TabTo(ChosenOf, NStreams)
 ChosenSet(k) == {ChosenTab[k][i] : i \in 1..Len(ChosenTab[k])}
 \* schedules outside the subset tree
 Specials(k) ==
